@@ -20,6 +20,7 @@ func propC13() *Property {
 			{ID: "R13.2", Floor: 4, Text: "every non-parse store to dataAckStruct.unAckSeq has the value Session.nextRecv.Load()", Run: r13_2},
 			{ID: "R13.3", Floor: 2, Text: "sendBuf deletions: DeleteMinIf only with the predicate seq < unAckSeq taken from the received segment, DeleteAll only in closeWithError, DeleteMin never; sendBuf.Insert(seg) dominates output(seg) in the new-segment loop", Run: r13_3},
 			{ID: "R13.4", Floor: 20, Text: "segment identity fields are written only in composite literals (construction) and in the Unmarshal methods", Run: r13_4},
+			{ID: "R13.7", Floor: 32, Text: "a segment of the wrong direction never reaches inputData/inputAck (it could advance nextRecv and be acknowledged as if the peer had sent it): the direction whitelist of Session.input, folded for every protocol number and role (shared with R05.6)", Run: func(c *RC) { r05_6(c) }},
 			{ID: "R13.6", Floor: 6, Text: "the payload of a segment never aliases a buffer owned by the caller: every store to segment.payload is a fresh make, a decrypt result, or nil (a retransmission must not see later writes to the application's buffer)", Run: r13_6},
 			{ID: "R13.5", Floor: 5, Text: "every Session.nextSend.Add has argument 1, runs with oLock held, and the same block sequence builds a segment whose seq is nextSend.Load()", Run: r13_5},
 		},
